@@ -1082,7 +1082,12 @@ func ColumnDefault(c *schema.Column) (cty.Value, error) {
 				}
 				return cty.NumberUIntVal(u), nil
 			case err != nil:
-				return cty.NilVal, err
+				// Not an integer literal, e.g. exponent notation (1e3).
+				f, err := strconv.ParseFloat(x.V, 64)
+				if err != nil {
+					return cty.NilVal, err
+				}
+				return cty.NumberFloatVal(f), nil
 			default:
 				return cty.NumberIntVal(i), nil
 			}
